@@ -122,6 +122,11 @@ class T:
         raise NotImplementedError
 
 
+def _no_collision(v):
+    """CPython: hash(-1) == hash(-2) (== -2), the one systematic collision of numeric hashes: -1.0 is never generated"""
+    return -1.0625 if v == -1.0 else v
+
+
 class Real(T):
     def __init__(self, lo=-50.0, hi=50.0, sign=0, big=True):
         self.lo, self.hi, self.sign, self.big = lo, hi, sign, big
@@ -140,7 +145,7 @@ class Real(T):
             if v > self.hi and self.hi < 1000:
                 v = self.hi
         v = min(max(float(v), self.lo), self.hi)
-        return v
+        return _no_collision(v)
 
     def perturb(self, r, v, d=0):
         if not isinstance(v, float):
@@ -150,7 +155,7 @@ class Real(T):
             if abs(v) >= 500 and r.random() < 0.7:
                 dl = r.choice([1e-9, 1e-8, 1e-7])  # far below the resolution of numpy's exponent print format at this magnitude
             s = self.sign or r.choice([-1, 1])
-            w = v + s * dl
+            w = _no_collision(v + s * dl)
             if abs(w - v) > 1.5e-10:
                 return w
         return v + (self.sign or 1) * 1.0
@@ -668,7 +673,7 @@ def _mk_states():
         SPECS[c] = StateSpec(c, [], family="State", gen=_gen_state(c), perturb=_perturb_state)
     slots = ["horn", "indicator_left", "indicator_right", "braking_lights", "hazard_warning_lights", "flashing_blue_lights"]
     SPECS["SignalState"] = Spec("SignalState", [P(s, BoolT(), True, p_omit=0.4) for s in slots] + [P("time_step", IntT(0, 50), True, p_omit=0.2)])
-    md = lambda vt: Opt(DictT(StrT("a", "b", "c", "key", "k2"), vt, 0, 2))
+    md = lambda vt: Opt(DictT(StrT("a", "b", "c", "key", "k2"), vt, 0, 3), 0.2)
     SPECS["MetaInformationState"] = Spec("MetaInformationState", [
         P("meta_data_str", md(StrT("x", "y", "zz")), True), P("meta_data_int", md(IntT(0, 9)), True),
         P("meta_data_float", md(Real(-5, 5, big=False)), True), P("meta_data_bool", md(BoolT()), True)])
